@@ -39,6 +39,9 @@ import Reamber.Lemmas.FindLcm
 import Reamber.Lemmas.BMSLines
 import Reamber.Lemmas.BMSRender
 import Reamber.Lemmas.BMSRead
+import Reamber.Lemmas.BMSTempo
+import Reamber.Lemmas.BMSPair
+import Reamber.Lemmas.BMSWriteTempo
 import Reamber.Props.C10
 import Reamber.Model.BMS
 import Reamber.Spec.BMS
@@ -327,6 +330,78 @@ theorem written_slot_time (cs : List BcSnap) (F : Rat → Snap) (t : Rat) (ch v 
         · exact ih _ _ a b h1 h2
         · rfl
     exact hgen 0 c rest _ _ rfl rfl
+
+/-! ### the tempo objects of the written file -/
+
+/-- **The tempo objects of the written file are the in-memory tempo list — for any order of the tempo rows.**
+
+`cs`: well-formed, strictly ascending (no two tempo points on one measure line), first at measure 0 beat 0,
+grid-compatible; `rows`: ANY arrangement of what the chart stores for `cs`, every tempo a three-decimal number
+(¬D06).  The writer sorts a copy of the rows (`from_bpm_changes_offset`), asks `TimingMap.snaps` for the position of
+every row's own offset *in row order*, writes row `i` as the channel-08 object `base36(i+1)` at that position and
+`#BPM<base36(i+1)>` with the row's tempo rounded to three decimals.  Reading the objects back through the table
+— tempo `roundDec 3 bpm_i`, metronome of the row, at the written position — and sorting by position gives exactly
+`cs`.  (The round-1 seeded changes C05-A / C15-A attacked this numbering under unsorted rows.) -/
+theorem written_tempo_list (cs : List BcSnap) (hwf : wfChanges cs = true) (hs : strictSnaps cs = true)
+    (h0 : firstAtZero cs = true) (hgc : gridCompatible (grid defaultMaxDiv) cs = true) (hm : metronomeOk cs = true)
+    (rows : List BcOff) (hp : rows.Perm (tmOf 0 cs)) (hdec : ∀ b ∈ rows, roundDec 3 b.bpm = b.bpm) :
+    sortBcOff rows = tmOf 0 cs ∧
+    ∃ sn, snaps defaultGrid (sortBcOff rows) (rows.map (·.offset)) = .ok sn ∧ sn.length = rows.length ∧
+      sortBcSnap ((rows.zip sn).map (fun p => (⟨roundDec 3 p.1.bpm, p.1.met, { p.2 with met := some p.1.met }⟩ : BcSnap))) = cs := by
+  have hg : GridOK defaultGrid := gridOK_grid (by decide)
+  have hgc' : gridCompatible defaultGrid.toList cs = true := by simpa [defaultGrid] using hgc
+  obtain ⟨hsort, G, hsn, hG⟩ := tempo_rows_positions hg 0 cs hwf hs h0 hgc' hm rows hp
+  refine ⟨hsort, rows.map (fun b => G b.offset), hsn, by simp, ?_⟩
+  have hperm := rows_changes_perm 0 cs hwf rows hp G hG
+  have hlist : (rows.zip (rows.map (fun b => G b.offset))).map
+      (fun p => (⟨roundDec 3 p.1.bpm, p.1.met, { p.2 with met := some p.1.met }⟩ : BcSnap)) =
+      rows.map (fun b => (⟨b.bpm, b.met, { G b.offset with met := some b.met }⟩ : BcSnap)) := by
+    rw [zip_map_self]
+    apply List.map_congr_left
+    intro b hb
+    simp [hdec b hb]
+  rw [hlist]
+  have hstrict : strictSnaps (sortBcSnap cs) = true := by rw [sortBcSnap_eq_self (sortedSnaps_of_strict hs)]; exact hs
+  rw [sortBcSnap_eq_of_perm hperm hstrict, sortBcSnap_eq_self (sortedSnaps_of_strict hs)]
+
+/-- the `#BPMxx` table: a dict filled with pairwise different keys is the list of its entries, and looks every
+entry up -/
+theorem dict_of_distinct {α} (kvs : List (Bytes × α)) (hnd : (kvs.map (·.1)).Nodup) :
+    kvs.foldl (fun d kv => dictSet d kv.1 kv.2) [] = kvs ∧ ∀ kv ∈ kvs, dictGet? kvs kv.1 = some kv.2 := by
+  constructor
+  · have key : ∀ (l d : List (Bytes × α)), ((d ++ l).map (·.1)).Nodup →
+        l.foldl (fun d kv => dictSet d kv.1 kv.2) d = d ++ l := by
+      intro l
+      induction l with
+      | nil => intro d _; simp
+      | cons a t ih =>
+        intro d hnd
+        simp only [List.foldl_cons]
+        have hnot : d.any (fun p => p.1 = a.1) = false := by
+          rw [List.any_eq_false]
+          intro p hp
+          simp only [decide_eq_true_eq]
+          intro e
+          rw [List.map_append, List.map_cons, List.nodup_append] at hnd
+          exact hnd.2.2 p.1 (List.mem_map_of_mem (f := fun q : Bytes × α => q.1) hp) a.1 (by simp) e
+        have hset : dictSet d a.1 a.2 = d ++ [a] := by simp [dictSet, hnot]
+        rw [hset, ih (d ++ [a]) (by simpa using hnd)]
+        simp
+    simpa using key kvs [] (by simpa using hnd)
+  · intro kv hkv
+    simp only [dictGet?]
+    rw [find_fst_of_mem kvs hnd kv hkv]
+    rfl
+
+/-- ids of the tempo rows are pairwise different (up to 1295 rows) -/
+theorem base36_ids_nodup (n : Nat) (hn : n < 1296) : ((List.range n).map (fun i => base36 (i + 1))).Nodup := by
+  rw [List.nodup_map_iff_inj_on List.nodup_range]
+  intro i hi j hj h
+  have hi' : i + 1 < 1296 := by have := List.mem_range.mp hi; omega
+  have hj' : j + 1 < 1296 := by have := List.mem_range.mp hj; omega
+  have := congrArg unb36 h
+  rw [(base36_roundtrip (i + 1) hi').1, (base36_roundtrip (j + 1) hj').1] at this
+  omega
 
 /-! ### the slot fill -/
 
